@@ -915,6 +915,44 @@ fn read_all_matrix<V: VirtualFileSystem>(backend: &str, vfs: &V, dir: &str) -> V
         }
     }
     let _ = vfs.remove(&p);
+    // assert_vfs_write_all! takes any bytes: data that is not text still satisfies "P is a file whose content
+    // equals data" once written (the tree sweep hands its arguments over as strings)
+    let datas: [&[u8]; 5] = [b"\xff\xfe\x00\x80", b"a\xc3", b"\x00", b"", b"plain"];
+    for existing in [false, true] {
+        for data in datas {
+            let _ = vfs.remove(&p);
+            if existing {
+                if let Err(e) = vfs.write_all(&p, b"old content") {
+                    out.push((format!("{} write_all matrix · setup failed", backend), e.to_string()));
+                    return out;
+                }
+            }
+            let r = catch_unwind(AssertUnwindSafe(|| {
+                assert_vfs_write_all!(vfs, &p, data);
+            }));
+            let stored = catch_unwind(AssertUnwindSafe(|| -> Option<Vec<u8>> {
+                use std::io::Read;
+                let mut h = vfs.read(&p).ok()?;
+                let mut v = vec![];
+                h.read_to_end(&mut v).ok()?;
+                Some(v)
+            }))
+            .unwrap_or(None);
+            let holds = stored.as_deref() == Some(data);
+            if r.is_err() && holds {
+                out.push((
+                    "assert_vfs_write_all! · panics although its predicate is true (byte data)".to_string(),
+                    format!("{}: data {:?} over {}: the file holds exactly the data afterwards, yet the macro panicked", backend, data, if existing { "an existing file" } else { "a missing path" }),
+                ));
+            } else if r.is_ok() && !holds {
+                out.push((
+                    "assert_vfs_write_all! · passes although its predicate is false (byte data)".to_string(),
+                    format!("{}: data {:?} over {}: the macro returned but the file holds {:?}", backend, data, if existing { "an existing file" } else { "a missing path" }, stored),
+                ));
+            }
+        }
+    }
+    let _ = vfs.remove(&p);
     out
 }
 
